@@ -72,6 +72,17 @@ def families():
     f["uhex-marks-dist2"] = E(und(hexa)) + [mark(1), mark(3)]
     f["uhex-marks-opp"] = E(und(hexa)) + [mark(1), mark(4)]
     f["uhex-diagonal"] = E(und(hexa + [(1, 4)]))
+    # disconnected mixtures: components of different size, a self-loop next to a cycle, identical small stars
+    f["loop+C4"] = E([(1, 1), (2, 3), (3, 4), (4, 5), (5, 2)])
+    f["loop+C3"] = E([(1, 1), (2, 3), (3, 4), (4, 2)])
+    f["2loops+C3"] = E([(1, 1), (2, 2), (3, 4), (4, 5), (5, 3)])
+    f["C2+C3"] = E([(1, 2), (2, 1), (3, 4), (4, 5), (5, 3)])
+    f["C2+C4"] = E([(1, 2), (2, 1), (3, 4), (4, 5), (5, 6), (6, 3)])
+    f["C1+C2+C3"] = E([(1, 1), (2, 3), (3, 2), (4, 5), (5, 6), (6, 4)])
+    f["2x2star"] = E([(1, 2), (1, 3), (4, 5), (4, 6)])
+    f["2x2instar"] = E([(2, 1), (3, 1), (5, 4), (6, 4)])
+    f["2xP3"] = E([(1, 2), (2, 3), (4, 5), (5, 6)])
+    f["3xK2"] = E([(1, 2), (3, 4), (5, 6)])
     f["uC6"] = E(und(hexa))
     f["uC4"] = E(und(c4))
     return f
@@ -140,6 +151,21 @@ def run(out, tier, seed):
             g = renamed(g0, prefixes[(c + seed) % len(prefixes)])
             jobs.append({"cfg": {}, "events": [{"op": "iso", "g": g, "h": g, "og": 100 + c, "oh": 200 + c * 7 + fi, "relabel": perm_map(6, rng)}]})
             jobs.append({"cfg": {}, "events": [{"op": "canon", "g": g, "h": g, "og": 300 + c, "oh": 400 + c * 5 + fi, "relabel": perm_map(6, rng)}]})
+    # graphs that differ in ONE ground term whose characters are the same (plain vs typed, language tags, IRI vs literal)
+    from ..sparql_replay import PFX
+    look = [({"k": "str", "v": "1"}, {"k": "num", "v": 1}), ({"k": "lit", "v": "a", "lang": "en"}, {"k": "lit", "v": "a", "lang": "fr"}), ({"k": "lit", "v": "a", "lang": "en"}, {"k": "str", "v": "a"}),
+            ({"k": "iri", "v": "x"}, {"k": "str", "v": PFX + "x"}), ({"k": "str", "v": "true"}, {"k": "bool", "v": True}), ({"k": "lit", "v": "a"}, {"k": "str", "v": "a"})]
+    A, Pp = {"k": "iri", "v": "a"}, {"k": "iri", "v": "p"}
+    for x, y in look:
+        shapes_ = [([[A, Pp, x]], [[A, Pp, y]]),                                                     # a ground triple
+                   ([[B(1), Pp, x]], [[B(1), Pp, y]]),                                               # hanging on the only blank node
+                   ([[A, Pp, B(1)], [B(1), Pp, x]], [[A, Pp, B(1)], [B(1), Pp, y]]),
+                   ([[B(1), Pp, B(2)], [B(2), Pp, B(1)], [A, Q, x]], [[B(1), Pp, B(2)], [B(2), Pp, B(1)], [A, Q, y]]),   # next to a symmetric part
+                   ([[B(1), Pp, B(2)], [B(2), Pp, x]], [[B(1), Pp, B(2)], [B(2), Pp, y]])]
+        for g, h in shapes_:
+            for op in ("iso", "canon", "diff"):
+                jobs.append({"cfg": {}, "events": [{"op": op, "g": g, "h": h, "og": 5, "oh": 6}]})
+                jobs.append({"cfg": {}, "events": [{"op": op, "g": h, "h": g, "og": 7, "oh": 8}]})
     names = list(fam)
     for a, b in itertools.combinations(names, 2):
         if len(fam[a]) == len(fam[b]):
